@@ -41,6 +41,39 @@ func (connioView) Gen(r *Rng, i int) string {
 			return 3000 + r.Intn(20000)
 		}
 	}
+	if r.Chance(1, 3) {
+		// a backend connection's path: requests join the pending-write queue (EnqueueOutFrag), the poller runs the
+		// write signal (handleWriteSignal: one vectored write of everything queued), writable events drain the backlog
+		small := func() int {
+			switch r.Intn(5) {
+			case 0:
+				return 1 + r.Intn(20)
+			case 1, 2:
+				return 20 + r.Intn(300)
+			case 3:
+				return 2000 + r.Intn(6000)
+			default:
+				return 500 + r.Intn(3000)
+			}
+		}
+		for j := 0; j < n; j++ {
+			switch r.Intn(10) {
+			case 0, 1, 2, 3:
+				var lens []string
+				for x := 1 + r.Intn(4); x > 0; x-- {
+					lens = append(lens, strconv.Itoa(small()))
+				}
+				ops = append(ops, "q "+strings.Join(lens, ","))
+			case 4, 5:
+				ops = append(ops, "t")
+			case 6, 7:
+				ops = append(ops, "f")
+			default:
+				ops = append(ops, fmt.Sprintf("d %d", []int{1, 100, 2000, 5000, 20000, 100000}[r.Intn(6)]))
+			}
+		}
+		return fmt.Sprintf("connio %d | %s", max, strings.Join(ops, " ; "))
+	}
 	for j := 0; j < n; j++ {
 		switch r.Intn(10) {
 		case 0, 1, 2:
@@ -124,6 +157,19 @@ func (connioView) ExecModel(line string) (out string, oracle string, tags []stri
 		}
 	}
 	var submitted []byte
+	var qlens []int // lengths of the requests queued since the last write signal, oldest first
+	// bytes still in the pending-write queue: the queue is FIFO, so it holds the most recently queued requests
+	queuedBytes := func() int {
+		n := peer.vc.OutFragLen()
+		if n > len(qlens) {
+			n = len(qlens)
+		}
+		t := 0
+		for _, l := range qlens[len(qlens)-n:] {
+			t += l
+		}
+		return t
+	}
 	k := 0
 	var outs []string
 	for _, op := range splitOps(parts[1]) {
@@ -173,6 +219,40 @@ func (connioView) ExecModel(line string) (out string, oracle string, tags []stri
 			default:
 				tagset["write-complete"] = true
 			}
+		case op[0] == "q" && len(op) == 2:
+			for _, l := range parseLens(op[1]) {
+				p := streamBytes(k, l)
+				k += l
+				frag := core.FragPool.Get()
+				frag.Req = append(frag.Req[:0], p...)
+				peer.vc.SConn().EnqueueOutFrag(frag)
+				submitted = append(submitted, p...)
+				qlens = append(qlens, l)
+			}
+			c.model = append(c.model, "q "+op[1])
+			tagset["enqueue"] = true
+			if backlog > 0 {
+				tagset["enqueue-behind-backlog"] = true
+			}
+		case op[0] == "t":
+			_, _ = env.env.RunTasks()
+			acc := c.wire() - before
+			c.model = append(c.model, fmt.Sprintf("t a=%d", acc))
+			if len(qlens) > 0 {
+				total := 0
+				for _, l := range qlens {
+					total += l
+				}
+				switch {
+				case backlog > 0:
+					tagset["signal-behind-backlog"] = true
+				case acc < total:
+					tagset["signal-short"] = true
+				default:
+					tagset["signal-complete"] = true
+				}
+			}
+			qlens = qlens[:0]
 		case op[0] == "f":
 			if backlog == 0 {
 				// eventloop.write is only ever called with a backlog (the poller watches writability only then)
@@ -198,9 +278,16 @@ func (connioView) ExecModel(line string) (out string, oracle string, tags []stri
 			break
 		}
 		outs = append(outs, fmt.Sprintf("[%d %d]", peer.vc.OutboundBuffered(), c.wire()))
-		if c.wire()+peer.vc.OutboundBuffered() != len(submitted) {
-			fail("after `%s`: %d bytes on the wire + %d backlogged != %d submitted", strings.Join(op, " "), c.wire(), peer.vc.OutboundBuffered(), len(submitted))
+		if qb := queuedBytes(); c.wire()+peer.vc.OutboundBuffered()+qb != len(submitted) {
+			fail("after `%s`: %d bytes on the wire + %d backlogged + %d queued != %d submitted", strings.Join(op, " "), c.wire(), peer.vc.OutboundBuffered(), qb, len(submitted))
 		}
+	}
+	if len(qlens) > 0 && peer.vc.Opened() {
+		before := c.wire()
+		_, _ = env.env.RunTasks()
+		c.model = append(c.model, fmt.Sprintf("t a=%d", c.wire()-before))
+		outs = append(outs, fmt.Sprintf("[%d %d]", peer.vc.OutboundBuffered(), c.wire()))
+		qlens = qlens[:0]
 	}
 	// drain completely: the peer reads, the proxy gets writable events, until nothing is left
 	for i := 0; i < 10000 && peer.vc.Opened(); i++ {
